@@ -44,7 +44,7 @@ func svcMsg(kind string, agentID string) []byte {
 	case "agentreg":
 		m = map[string]any{"Head": map[string]any{"Type": "Agent"}, "Body": map[string]any{"Type": "AgentRegister",
 			"AgentHeader":  map[string]any{"Size": "64", "MagicValue": "41414141", "AgentID": "2badbeef"},
-			"RegisterInfo": map[string]any{"Hostname": "h", "Username": "u", "Domain": "d", "InternalIP": "1.2.3.4", "Process Path": "p", "Process Name": "n", "Process Arch": "x64", "Process ID": "1", "Process Parent ID": "1", "Process Elevated": "0", "OS Version": "v", "OS Build": "b", "OS Arch": "a", "SleepDelay": "1"}}}
+			"RegisterInfo": map[string]any{"Hostname": "h", "Username": "u", "Domain": "d", "InternalIP": "1.2.3.4", "Process Path": "p", "Process Name": "n", "Process Arch": "x64", "Process ID": "1", "Process Parent ID": "1", "Process Elevated": "0", "OS Build": "b", "OS Arch": "a", "SleepDelay": "1"}}}
 	case "task":
 		m = map[string]any{"Head": map[string]any{"Type": "Agent"}, "Body": map[string]any{"Type": "AgentTask", "Agent": map[string]any{"NameID": agentID}, "Task": "Add", "Command": "QUJD"}}
 	case "exc2":
@@ -256,6 +256,12 @@ func runB(raw json.RawMessage) *core.Violation {
 	s.Send(typ, c.Raw)
 	sendFollow := func() {
 		for _, k := range c.Follow {
+			if rd != mustReject && k != "regagent" && k != "ladd" {
+				// the password may be accepted: what follows is then ordinary authenticated service
+				// traffic, whose robustness is not this property's subject; only the two plain
+				// registrations are sent
+				continue
+			}
 			s.Send(websocket.TextMessage, svcMsg(k, agentID))
 		}
 	}
